@@ -15,3 +15,16 @@ package tmapvalue
 //@   ensures[empty-untouched] len(old(record.Fields[tf.keyLocator])) == 0 ==> record.Fields[tf.keyLocator] === old(record.Fields[tf.keyLocator])
 //@   ensures[mapped] len(old(record.Fields[tf.keyLocator])) > 0 && has(tf.mapping, old(record.Fields[tf.keyLocator])) ==> record.Fields[tf.keyLocator] === tf.mapping[old(record.Fields[tf.keyLocator])]
 //@   ensures[default] len(old(record.Fields[tf.keyLocator])) > 0 && !has(tf.mapping, old(record.Fields[tf.keyLocator])) ==> record.Fields[tf.keyLocator] === tf.defaultValue
+
+// ==== configuration: verify => construct (C16) ===================================================================================
+//@ pure func cfgok(c *Config, s base.LogSchema) bool := len(c.Key) > 0 && base.hasf(s, key(c.Key)) && len(c.Mapping) > 0
+//@ func (c *Config) VerifyConfig(schema base.LogSchema) error
+//@   property C16
+//@   requires c != nil
+//@   modifies nothing
+//@   ensures[accepted-config-is-constructible] result == nil ==> cfgok(c, schema)
+//@ func (c *Config) NewTransform(schema base.LogSchema, _ logger.Logger, _ base.LogCustomCounterRegistry) base.LogTransform
+//@   property C16
+//@   requires c != nil && cfgok(c, schema)
+//@   modifies nothing
+//@   ensures  result != nil
